@@ -438,7 +438,9 @@ def candidates(p: Procedure, opname: str, op, env, rng: random.Random, cap: int 
                 res.append(tuple(f if x == "__FIELDS__" else x for x in t))
         else:
             res.append(t)
+    # the caller stops after `cap` ACCEPTED applications; rejected attempts are cheap, so up to 4*cap
+    # candidates are offered (in a seeded random order when there are more than cap)
     if len(res) > cap:
         rng.shuffle(res)
-        res = res[:cap]
+        res = res[: cap * 4]
     return res
